@@ -93,6 +93,8 @@ Record rstate := {
   r_ok : bool;
   r_served : list (N * N);          (* (store, region) -> largest apply mark observed at a served read, this incarnation *)
   r_last : list (N * N);            (* (store, region) -> index of the last entry applied, this incarnation *)
+  r_owed : list (N * N);            (* (store, call): the model completed this waiter; its call has to return, unless
+                                       the store's process dies first (then the answer is lost with it) *)
   r_cmds : list (N * rcmd)          (* client call -> its command *)
 }.
 Definition served_of (l : list (N * N)) (s : N) : N :=
@@ -125,15 +127,16 @@ Definition rstep (r : rstate) (e : oev) : rstate :=
   | OStart s =>
       {| r_g := gs g (GStart s); r_ok := r_ok r;
          r_served := filter (fun x => negb (fst x / 2^32 =? s)) (r_served r);
-         r_last := filter (fun x => negb (fst x / 2^32 =? s)) (r_last r); r_cmds := r_cmds r |}
+         r_last := filter (fun x => negb (fst x / 2^32 =? s)) (r_last r);
+         r_owed := filter (fun x => negb (fst x =? s)) (r_owed r); r_cmds := r_cmds r |}
   | OPropose s region w c leader term o =>
       let g1 := gs g (GPropose s region w c (VStatus leader term 0)) in
       (* raft refused the proposal: ProposeCommand removes the waiter again and returns the error *)
       let g' := match o, head_out g1 with PoDropped, OWaiting id => gs g1 (GTimeout s region id) | _, _ => g1 end in
-      {| r_g := g'; r_ok := r_ok r && out_matches (head_out g1) o; r_served := r_served r; r_last := r_last r; r_cmds := (w, c) :: r_cmds r |}
+      {| r_g := g'; r_ok := r_ok r && out_matches (head_out g1) o; r_served := r_served r; r_last := r_last r; r_owed := r_owed r; r_cmds := (w, c) :: r_cmds r |}
   | ORead s region w c leader term o =>
       let g' := gs g (GRead s w (VStatus leader term 0)) in
-      {| r_g := g'; r_ok := r_ok r && out_matches (head_out g') o; r_served := r_served r; r_last := r_last r; r_cmds := (w, c) :: r_cmds r |}
+      {| r_g := g'; r_ok := r_ok r && out_matches (head_out g') o; r_served := r_served r; r_last := r_last r; r_owed := r_owed r; r_cmds := (w, c) :: r_cmds r |}
   | OApply s region i t id c res =>
       let e := {| e_index := i; e_term := t; e_kind := ENormal; e_data := PCmd region id c |} in
       let before := store_of g s in
@@ -147,7 +150,13 @@ Definition rstep (r : rstate) (e : oev) : rstate :=
       let ok_ord := served_of (r_last r) (skey s region) <? i in
       let ok_mark := served_of (r_served r) (skey s region) <? i in
       {| r_g := g'; r_ok := r_ok r && ok_res && ok_ord && ok_mark; r_served := r_served r;
-         r_last := set_served (r_last r) (skey s region) i; r_cmds := r_cmds r |}
+         r_last := set_served (r_last r) (skey s region) i;
+         r_owed := match completions g' s with
+                   | k :: rest => if Nat.eqb (List.length rest) (List.length (completions g s))
+                                  then (s, k_w k) :: r_owed r else r_owed r
+                   | [] => r_owed r
+                   end;
+         r_cmds := r_cmds r |}
   | OServe s region w ridx mark =>
       let st := store_of g s in
       (* WaitApplied let the read through: the mark covers the read index (what the mark
@@ -155,14 +164,14 @@ Definition rstep (r : rstate) (e : oev) : rstate :=
       let ok := (ridx =? 0) || (ridx <=? mark) in
       {| r_g := g; r_ok := r_ok r && ok; r_served := set_served (r_served r) (skey s region) (N.max mark (served_of (r_served r) (skey s region)));
          r_last := r_last r;
-         r_cmds := r_cmds r |}
+         r_owed := r_owed r; r_cmds := r_cmds r |}
   | OExec s w res =>
       let st := store_of g s in
       let ok := match find (fun x => fst x =? w) (r_cmds r) with
                 | Some (_, c) => orresp_eqb (snd (rapply (s_sm st) c)) res
                 | None => false
                 end in
-      {| r_g := g; r_ok := r_ok r && ok; r_served := r_served r; r_last := r_last r; r_cmds := r_cmds r |}
+      {| r_g := g; r_ok := r_ok r && ok; r_served := r_served r; r_last := r_last r; r_owed := r_owed r; r_cmds := r_cmds r |}
   | ORet w o =>
       let ok := match o with
                 | RoOk uid v =>
@@ -174,7 +183,7 @@ Definition rstep (r : rstate) (e : oev) : rstate :=
                 | RoNotLeader => match predicted g w with None => true | Some _ => false end
                 | RoErr => true
                 end in
-      {| r_g := g; r_ok := r_ok r && ok; r_served := r_served r; r_last := r_last r; r_cmds := r_cmds r |}
+      {| r_g := g; r_ok := r_ok r && ok; r_served := r_served r; r_last := r_last r; r_owed := filter (fun x => negb (snd x =? w)) (r_owed r); r_cmds := r_cmds r |}
   end.
 
 (** a successful ReadCommand returns what its OExec saw *)
@@ -193,7 +202,7 @@ Definition reads_consistent (evs : list oev) : bool :=
                     end) evs.
 
 Definition replay (evs : list oev) : rstate :=
-  fold_left rstep evs {| r_g := ginit ([] : rsm); r_ok := true; r_served := []; r_last := []; r_cmds := [] |}.
+  fold_left rstep evs {| r_g := ginit ([] : rsm); r_ok := true; r_served := []; r_last := []; r_owed := []; r_cmds := [] |}.
 
 (** every waiter that the model completes and whose call returned was compared;
     conversely a call that returned success must have a model completion *)
@@ -207,11 +216,6 @@ Definition returns_predicted (evs : list oev) (g : gstate rcmd rresp rsm) : bool
                     | _ => true
                     end) evs.
 
-(** a waiter the model completes is answered: its call returns *)
-Definition completed_return (evs : list oev) (g : gstate rcmd rresp rsm) : bool :=
-  forallb (fun k => match ret_of evs (k_w k) with Some _ => true | None => false end)
-          (flat_map (completions g) [1; 2; 3]).
-
 Inductive case :=
 | CPipe (steps : list ustep) (final : list (N * option (option rresp)))
 | CCluster (prop : N) (evs : list oev).
@@ -223,7 +227,8 @@ Definition check (c : case) : verdict :=
       mk_verdict (negb (ok && polled_ok s final)) false 0
   | CCluster prop evs =>
       let r := replay evs in
-      let mism := negb (r_ok r && reads_consistent evs && returns_predicted evs (r_g r) && completed_return evs (r_g r)) in
+      let mism := negb (r_ok r && reads_consistent evs && returns_predicted evs (r_g r) &&
+                       match r_owed r with [] => true | _ => false end) in
       let viol := if prop =? 23 then negb (c23_ok evs) else negb (c22_ok evs) in
       mk_verdict mism viol 0
   end.
